@@ -7,6 +7,7 @@ import (
 	"github.com/vektah/gqlparser/v2/ast"
 	"github.com/vektah/gqlparser/v2/gqlerror"
 	"github.com/vektah/gqlparser/v2/lexer"
+	"github.com/vektah/gqlparser/v2/verifhook"
 )
 
 type parser struct {
@@ -83,6 +84,7 @@ func (p *parser) peek() lexer.Token {
 
 	if !p.peeked {
 		p.peekToken, p.peekError = p.lexer.ReadToken()
+		verifhook.Lex(int(p.peekToken.Kind), p.peekToken.Pos.Start)
 		p.peeked = true
 		if p.peekToken.Kind == lexer.Comment {
 			p.consumeCommentGroup()
@@ -105,7 +107,9 @@ func (p *parser) next() lexer.Token {
 	}
 	// Increment the token count before reading the next token
 	p.tokenCount++
+	verifhook.Next(p.tokenCount)
 	if p.maxTokenLimit != 0 && p.tokenCount > p.maxTokenLimit {
+		verifhook.LimitHit(p.tokenCount)
 		p.err = fmt.Errorf("exceeded token limit of %d", p.maxTokenLimit)
 		return p.prev
 	}
@@ -115,6 +119,7 @@ func (p *parser) next() lexer.Token {
 		p.prev, p.err = p.peekToken, p.peekError
 	} else {
 		p.prev, p.err = p.lexer.ReadToken()
+		verifhook.Lex(int(p.prev.Kind), p.prev.Pos.Start)
 		if p.prev.Kind == lexer.Comment {
 			p.consumeCommentGroup()
 		}
